@@ -29,3 +29,6 @@ func VerifC43StreamPack(ctx context.Context,
 }
 
 func VerifC43MaxUnusedRange() int64 { return maxUnusedRange }
+
+// VerifC43Lookup returns the index entries of a blob in lookup order (what LoadBlob iterates over).
+func VerifC43Lookup(r *Repository, bh restic.BlobHandle) []*pack.PackedBlob { return r.idx.Lookup(bh) }
